@@ -2,7 +2,7 @@
    Participant, Choice and Course (from an object by field name -- unknown keys ignored, `default` fields optional -- or from an array
    positionally), followed by io::check_data_consistency.  Total by construction: every JSON value is either refused or yields
    participants and courses.  Tied to the code by exact comparison on generated and corrupted documents (CorrSimple). *)
-From Coq Require Import List ZArith Bool Arith String Lia.
+From Coq Require Import List ZArith Bool Arith String Ascii Lia.
 Require Import Consts Json.
 Import ListNotations.
 Open Scope string_scope.
@@ -198,3 +198,41 @@ Proof. intros (code & H). unfold simple_accepts. rewrite H. reflexivity. Qed.
 (* the size clause of the consistency check *)
 Lemma consistent_rows ps cs : consistentb ps cs = true -> (Z.of_nat (List.length ps) + fold_right Z.add 0 (map so_max cs) <= max_rows)%Z.
 Proof. unfold consistentb. intros H. apply andb_prop in H. destruct H as [_ H]. apply Z.leb_le. exact H. Qed.
+
+(* ---------------------------------------------------------------- the rooms file (io::rooms::read) and the --rooms option *)
+(* CourseRoomKind { name, capacity, quantity } by serde's derived Deserialize; at most MAX_NUM_ROOMS rooms in total (fix 0d4135b).
+   A kind is (name, capacity, quantity); the sorted order and the expansion to the room list are RoomsModel.kinds_read / rooms_of_kinds. *)
+Definition max_num_rooms : Z := 100000%Z.
+Definition de_kind (j : json) : result (string * Z * Z) :=
+  match j with
+  | JObj o => let* n := req de_string "name" o in let* c := req de_usize "capacity" o in let* q := req de_usize "quantity" o in ROk (n, c, q)
+  | JArr l => let* n := req_at de_string 0 l in let* c := req_at de_usize 1 l in let* q := req_at de_usize 2 l in
+              if 3 <? List.length l then RErr 68 else ROk (n, c, q)
+  | _ => RErr 69
+  end.
+Definition rooms_file_read (j : json) : result (list (string * Z * Z)) :=
+  let* ks := de_vec de_kind j in
+  if (fold_right Z.add 0%Z (map (fun k : string * Z * Z => snd k) ks) <=? max_num_rooms)%Z then ROk ks else RErr 72.
+
+(* --rooms "a,b,c": every comma-separated piece must be a usize in Rust's FromStr syntax (optional '+', decimal digits, < 2^64) *)
+Fixpoint split_comma (s : string) (cur : string) : list string :=
+  match s with
+  | EmptyString => [cur]
+  | String c t => if Ascii.eqb c ","%char then cur :: split_comma t EmptyString else split_comma t (cur ++ String c EmptyString)%string
+  end.
+Definition rooms_option_read (s : string) : result (list Z) := mapM (fun piece => ok_or (parse_u64 piece) 73) (split_comma s EmptyString).
+
+Theorem rooms_file_bounded j ks : rooms_file_read j = ROk ks ->
+  (fold_right Z.add 0 (map (fun k : string * Z * Z => snd k) ks) <= max_num_rooms)%Z /\
+  forall n c q, In (n, c, q) ks -> (0 <= c)%Z /\ (0 <= q)%Z.
+Proof.
+  unfold rooms_file_read. destruct (de_vec de_kind j) as [ks0|] eqn:E; [|discriminate]. cbn [bind].
+  destruct (_ <=? max_num_rooms)%Z eqn:El; [|discriminate]. intros H. inversion H; subst ks0. split; [apply Z.leb_le; exact El|].
+  intros n c q Hin. destruct (de_vec_In _ _ _ _ E Hin) as (a & Ha). unfold de_kind in Ha. destruct a as [| | | | | |l|o]; try discriminate.
+  - destruct (req_at de_string 0 l) as [n0|]; [|discriminate]. cbn [bind] in Ha. destruct (req_at de_usize 1 l) as [c0|] eqn:Ec; [|discriminate]. cbn [bind] in Ha.
+    destruct (req_at de_usize 2 l) as [q0|] eqn:Eq; [|discriminate]. cbn [bind] in Ha. destruct (3 <? List.length l); [discriminate|]. inversion Ha; subst.
+    destruct (req_at_ok _ _ _ _ Ec) as (v & Hv). destruct (req_at_ok _ _ _ _ Eq) as (w & Hw). split; eapply de_usize_nonneg; eauto.
+  - destruct (req de_string "name" o) as [n0|]; [|discriminate]. cbn [bind] in Ha. destruct (req de_usize "capacity" o) as [c0|] eqn:Ec; [|discriminate]. cbn [bind] in Ha.
+    destruct (req de_usize "quantity" o) as [q0|] eqn:Eq; [|discriminate]. cbn [bind] in Ha. inversion Ha; subst.
+    destruct (req_ok _ _ _ _ Ec) as (v & Hv). destruct (req_ok _ _ _ _ Eq) as (w & Hw). split; eapply de_usize_nonneg; eauto.
+Qed.
